@@ -248,6 +248,14 @@ func (c *Ctx) pbRaw(m pbMsg, fd pbFD) (Value, types.Type, bool) {
 	return (*wp.slot).(*Struct).f[0], wst.Field(0).Type(), true
 }
 
+// pbCheckField: protobuf-go panics ("mismatching field") when a field
+// descriptor of another message type is used on a message.
+func (c *Ctx) pbCheckField(m pbMsg, fd pbFD) {
+	if fd.st != m.st {
+		panic(&goPanic{what: "protoreflect: mismatching field: descriptor " + fd.name + " belongs to a different message type", pos: c.cp()})
+	}
+}
+
 func (c *Ctx) pbFDIface(fd pbFD) Value { return Iface{t: pbFDType, v: fd} }
 
 // engineInvoke handles interface method calls on engine-native objects
@@ -292,8 +300,41 @@ func (c *Ctx) engineInvoke(recv Iface, method string, args []Value) (Value, bool
 				}
 			}
 			return nil, true
+		case "Mutable", "NewField":
+			fd := args[0].(Iface).v.(pbFD)
+			c.pbCheckField(r, fd)
+			if fd.kind != 11 || fd.list {
+				c.errf("pb-lite %s: only singular message fields are modelled (field %s)", method, fd.name)
+			}
+			if r.p == nil {
+				panic(&goPanic{what: "protoreflect: Mutable on read-only (nil) message", pos: c.cp()})
+			}
+			raw, ft, present := c.pbRaw(r, fd)
+			if present {
+				if p, _ := raw.(*Ptr); p != nil {
+					return c.pbFieldValue(fd, raw, ft), true
+				}
+			}
+			if ft == nil {
+				ft = fd.wrap.(*types.Pointer).Elem().Underlying().(*types.Struct).Field(0).Type()
+			}
+			ns := new(Value)
+			*ns = zero(ft.(*types.Pointer).Elem())
+			np := &Ptr{slot: ns}
+			sv := (*r.p.slot).(*Struct)
+			if method == "Mutable" {
+				if fd.idx >= 0 {
+					sv.f[fd.idx] = np
+				} else {
+					ws := new(Value)
+					*ws = &Struct{f: []Value{np}}
+					sv.f[fd.oneof] = Iface{t: fd.wrap, v: &Ptr{slot: ws}}
+				}
+			}
+			return c.pbFieldValue(fd, np, ft), true
 		case "Has":
 			fd := args[0].(Iface).v.(pbFD)
+			c.pbCheckField(r, fd)
 			if r.p == nil {
 				return Bool(false), true
 			}
@@ -307,6 +348,7 @@ func (c *Ctx) engineInvoke(recv Iface, method string, args []Value) (Value, bool
 			return c.pbIsSet(fd, raw), true
 		case "Get":
 			fd := args[0].(Iface).v.(pbFD)
+			c.pbCheckField(r, fd)
 			if r.p == nil {
 				c.errf("pb-lite Get on nil message")
 			}
@@ -318,6 +360,7 @@ func (c *Ctx) engineInvoke(recv Iface, method string, args []Value) (Value, bool
 			return c.pbFieldValue(fd, raw, ft), true
 		case "Set":
 			fd := args[0].(Iface).v.(pbFD)
+			c.pbCheckField(r, fd)
 			if r.p == nil {
 				panic(&goPanic{what: "protoreflect: Set on read-only (nil) message", pos: c.cp()})
 			}
@@ -348,6 +391,7 @@ func (c *Ctx) engineInvoke(recv Iface, method string, args []Value) (Value, bool
 			return nil, true
 		case "Clear":
 			fd := args[0].(Iface).v.(pbFD)
+			c.pbCheckField(r, fd)
 			if r.p == nil {
 				panic(&goPanic{what: "protoreflect: Clear on read-only (nil) message", pos: c.cp()})
 			}
